@@ -604,7 +604,13 @@ func planC17(t *testing.T, tier string, seed uint64) ([]RunSpec, error) {
 		nfree = 4000
 	}
 	for k := 0; k < nfree; k++ {
-		plan = append(plan, RunSpec{Property: "C17", Workload: "c17/free-race", Params: map[string]int{"free": 1, "n": 1 + k%8, "iters": []int{5, 30, 120}[k%3], "gomaxprocs": []int{2, 4, 16}[(k/3)%3]}, Seed: runSeed(seed, 900000+k)})
+		ps := map[string]int{"free": 1, "n": 1 + k%8, "iters": []int{5, 30, 120}[k%3], "gomaxprocs": []int{2, 4, 16}[(k/3)%3]}
+		wl := "c17/free-race"
+		if k%4 == 3 {
+			ps["fatal"] = 1
+			wl = "c17/free-race-fatal"
+		}
+		plan = append(plan, RunSpec{Property: "C17", Workload: wl, Params: ps, Seed: runSeed(seed, 900000+k)})
 	}
 	return plan, nil
 }
